@@ -18,7 +18,7 @@ import (
 func init() {
 	Props["C02"] = &harness.Prop{
 		ID:          "C02",
-		Rule:        "input dimension: every string up to length 6 (quick) / 8 (thorough) over {D3,00,01,02,p,c1,c2,c3}, every cut of three longer frames after three prefixes, every sequence of <=3 menu segments, through the sequential framing seam; schedule dimension: producer, HandleMessages and consumer threads under the controlled scheduler for every string up to length 4 (quick) / 6 (thorough) over {D3,00,01,41} plus 9 selected short streams plus 7 typed frames (1005, 1006, 1077, 1074, 1230, 1087, 4095) alone, after junk, truncated and in pairs, for every (input,output) channel capacity pair in {0,1,2}^2 (quick) / {0,1,2,3}^2 (thorough), all interleavings up to the stated preemption bound (all of them when the bound prunes nothing). Non-trivial = stream contains 0xD3 (input) / distinct schedule trace (schedules)",
+		Rule:        "input dimension: every string up to length 6 (quick) / 8 (thorough) over {D3,00,01,02,p,c1,c2,c3}, every cut of three longer frames after three prefixes, every sequence of <=3 menu segments, through the sequential framing seam; schedule dimension: producer, HandleMessages and consumer threads under the controlled scheduler for every string up to length 4 (quick) / 6 (thorough) over {D3,00,01,41} plus 9 selected short streams plus 7 typed frames (1005, 1006, 1077, 1074, 1230, 1087, 4095) alone, after junk, truncated and in pairs, for every (input,output) channel capacity pair in {0,1,2}^2 (quick) / {0,1,2,3}^2 (thorough), plus bursts of 24 messages with a consumer that lags as far as the pipeline allows; all interleavings up to the stated preemption bound (all of them when the bound prunes nothing). Non-trivial = stream contains 0xD3 (input) / distinct schedule trace (schedules)",
 		Assumptions: []string{"scheduling points are the channel operations of rtcm/handler and rtcm/pushback (instrumented at build time); code between two channel operations is atomic for this property, which is sound because the three threads share memory only through the two channels"},
 		Pre:         func(r *ev.Run) { props.C02Input(r) },
 		Scenarios:   c02Scenarios,
@@ -146,6 +146,69 @@ func c02Scenarios(tier string) []*mcrt.Scenario {
 					},
 				})
 			}
+		}
+	}
+	// a consumer that lags as far as the pipeline lets it (it is scheduled only
+	// when nothing else can run) behind a burst of 24 messages: anything that
+	// queues messages inside the handler is filled to the brim
+	var frag, tiny []byte
+	for i := 0; i < 24; i++ {
+		frag = append(frag, 0xD3, 0xFF, byte(i), 0x01, 0x02)
+		tiny = append(tiny, ref.TypedFrame(1000+i, 1+i%3, func(k int) byte { return byte(i) })...)
+	}
+	for name, stream := range map[string][]byte{"24-bad-header-fragments": frag, "24-small-frames": tiny} {
+		for _, cp := range [][2]int{{0, 0}, {1, 4}, {64, 0}} {
+			stream, cp := stream, cp
+			scs = append(scs, &mcrt.Scenario{
+				Name:  fmt.Sprintf("lagging-consumer %s in=%d out=%d", name, cp[0], cp[1]),
+				Bound: 1, Horizon: 100000, Prune: true,
+				Body: func(x *mcrt.X) {
+					obs := &c02Obs{}
+					x.Data = obs
+					in := make(chan byte, cp[0])
+					out := make(chan handler.Message, cp[1])
+					mcrt.Go("producer", func() {
+						for _, b := range stream {
+							mcrt.Send(in, b)
+						}
+						mcrt.Close(in)
+					})
+					mcrt.GoLow("consumer", func() {
+						for {
+							m, ok := mcrt.Recv2(out)
+							if !ok {
+								obs.closed++
+								return
+							}
+							obs.msgs = append(obs.msgs, m)
+						}
+					})
+					handler.New(T0, slog.LevelInfo).HandleMessages(in, out)
+					obs.returned = true
+				},
+				Check: func(x *mcrt.X) *mcrt.Failure {
+					obs := x.Data.(*c02Obs)
+					if len(x.Panics) > 0 {
+						p := x.Panics[0]
+						return &mcrt.Failure{Kind: "panic in " + p.Thread + ": " + firstLine(p.Value) + " @" + p.Site, Detail: p.Stack}
+					}
+					if x.End != mcrt.EndAllDone {
+						return &mcrt.Failure{Kind: "threads-left-blocked end=" + x.End, Detail: fmt.Sprint(x.Blocked)}
+					}
+					var cat []byte
+					for _, m := range obs.msgs {
+						cat = append(cat, m.RawData...)
+					}
+					if !bytes.Equal(cat, stream) {
+						return &mcrt.Failure{Kind: "delivered-bytes-differ-from-input", Detail: fmt.Sprintf("lagging consumer, %d messages: got %x want %x", len(obs.msgs), cat, stream)}
+					}
+					if obs.closed != 1 || !obs.returned {
+						return &mcrt.Failure{Kind: "output-not-closed-exactly-once"}
+					}
+					harness.Outcome("lagging consumer ok")
+					return nil
+				},
+			})
 		}
 	}
 	return scs
